@@ -372,6 +372,40 @@ constexpr auto compute_ld_copysign()
     return r;
 }
 constexpr auto CT_LD_CS = compute_ld_copysign();
+constexpr size_t NLDFM = len(T_LDFM);
+struct LdFmod {
+    long double fmod_[NLDFM][NLDFM]{}, rem_[NLDFM][NLDFM]{};
+};
+constexpr auto compute_ld_fmod()
+{
+    LdFmod r{};
+    for (size_t i = 0; i < NLDFM; ++i) {
+        for (size_t j = 0; j < NLDFM; ++j) {
+            r.fmod_[i][j] = etl::fmod(make_ld(T_LDFM[i]), make_ld(T_LDFM[j]));
+            r.rem_[i][j]  = etl::remainder(make_ld(T_LDFM[i]), make_ld(T_LDFM[j]));
+        }
+    }
+    return r;
+}
+constexpr auto CT_LDFM = compute_ld_fmod();
+
+// etl::bit_cast: pattern -> floating point -> pattern
+template <typename F, size_t N>
+constexpr auto compute_bitcast(fbits_t<F> const (&tab)[N])
+{
+    Arr<fbits_t<F>, N> r{};
+    for (size_t i = 0; i < N; ++i) { r.v[i] = etl::bit_cast<fbits_t<F>>(etl::bit_cast<F>(tab[i])); }
+    return r;
+}
+constexpr auto CT_BC32 = compute_bitcast<float>(T_F32);
+constexpr auto CT_BC64 = compute_bitcast<double>(T_F64);
+template <typename F>
+[[gnu::noinline]] auto rt_bitcast(fbits_t<F> b) -> fbits_t<F>
+{
+    fbits_t<F> volatile v = b;
+    fbits_t<F> const w    = v;
+    return etl::bit_cast<fbits_t<F>>(etl::bit_cast<F>(w));
+}
 
 // ------------------------------------------------------------------ single-path samples (observed only)
 struct Civil {
@@ -945,11 +979,49 @@ bool vh::run_case(std::string const& op, Toks& in, Out& impl, Out& ref)
         }
         return false;
     }
+    if (op == "bitcast") {
+        std::string const t = in.str();
+        auto const i        = static_cast<size_t>(in.num());
+        if (t == "f32" && i < len(T_F32)) {
+            if (!check_val(in, T_F32[i], impl)) { return true; }
+            impl.tok("ok").unum(CT_BC32.v[i]);
+            ref.tok("ok").unum(rt_bitcast<float>(T_F32[i]));
+            return true;
+        }
+        if (t == "f64" && i < len(T_F64)) {
+            if (!check_val(in, T_F64[i], impl)) { return true; }
+            impl.tok("ok").unum(CT_BC64.v[i]);
+            ref.tok("ok").unum(rt_bitcast<double>(T_F64[i]));
+            return true;
+        }
+        return false;
+    }
     if (op == "fmod" || op == "remainder") {
         bool const rem      = op == "remainder";
         std::string const t = in.str();
         auto const i        = static_cast<size_t>(in.num());
         auto const j        = static_cast<size_t>(in.num());
+        if (t == "ld" && i < NLDFM && j < NLDFM) {
+            long double const x = launder(make_ld(T_LDFM[i]));
+            long double const y = launder(make_ld(T_LDFM[j]));
+            {
+                Out mine;
+                put_ld(mine, x, true);
+                put_ld(mine, y, true);
+                std::string rest;
+                while (in.more()) {
+                    if (!rest.empty()) { rest += ' '; }
+                    rest += in.str();
+                }
+                if (rest != mine.s) {
+                    impl.tok("table-mismatch").tok(mine.s);
+                    return true;
+                }
+            }
+            put_ld(impl.tok("ok"), rem ? CT_LDFM.rem_[i][j] : CT_LDFM.fmod_[i][j], false);
+            put_ld(ref.tok("ok"), rem ? etl::remainder(x, y) : etl::fmod(x, y), false);
+            return true;
+        }
         if (t == "f32" && i < len(T_FMOD32) && j < len(T_FMOD32)) {
             if (!check_val(in, T_FMOD32[i], impl) || !check_val(in, T_FMOD32[j], impl)) { return true; }
             float const x = launder(to_f<float>(T_FMOD32[i]));
